@@ -17,7 +17,8 @@ MAP = {
          ("PylEquivIter", ["iter_sources_supported", "src_filter_ok", "src_enumerate_ok", "src_map_ok", "src_takewhile_ok", "src_dropwhile_ok", "src_filterfalse_ok",
                            "src_starmap_ok", "src_pairwise_ok", "src_accumulate_ok", "src_islice_ok", "src_compress_ok"]),
          ("PylEquivZip", ["zip_sources_supported", "src_zip_inner_ok", "src_zip_inner_strict_ok", "src_zip_ok", "src_batched_ok"]),
-         ("PylCorollariesIter", ["filter_source_trace", "enumerate_source_trace", "map_source_trace", "zip_source_trace", "takewhile_source_trace", "dropwhile_source_trace", "filterfalse_source_trace", "starmap_source_trace", "pairwise_source_trace", "accumulate_source_trace_partial", "accumulate_source_empty_typeerror", "islice_source_trace", "compress_source_trace", "batched_source_trace_partial", "batched_source_trace_exact"])],
+         ("PylEquivChain", ["chain_sources_supported", "src_chain_iterator_ok", "src_cycle_ok", "a_cycle_wf_passes"]),
+         ("PylCorollariesIter", ["filter_source_trace", "enumerate_source_trace", "map_source_trace", "zip_source_trace", "takewhile_source_trace", "dropwhile_source_trace", "filterfalse_source_trace", "starmap_source_trace", "pairwise_source_trace", "accumulate_source_trace_partial", "accumulate_source_empty_typeerror", "islice_source_trace", "compress_source_trace", "batched_source_trace_partial", "batched_source_trace_exact", "chain_source_trace", "cycle_source_trace"])],
  "C02": [("MinMax", ["min_max_spec", "spec_min_first_minimal", "spec_max_first_maximal", "spec_min_max_type_error", "spec_min_max_value_error"]),
          ("AllAny", ["all_spec", "any_spec"]), ("Folds", ["sum_spec", "list_spec", "tuple_spec", "set_spec", "dict_spec", "reduce_spec"]),
          ("Sorted", ["sorted_spec", "spec_sorted_perm", "spec_sorted_sorted", "spec_sorted_stable", "sorted_type_error_exact", "sorted_outcome_cases"]),
@@ -38,7 +39,8 @@ MAP = {
          ("PylEquivIter", ["iter_sources_supported", "src_filter_ok", "src_enumerate_ok", "src_map_ok", "src_takewhile_ok", "src_dropwhile_ok",
                            "src_filterfalse_ok", "src_starmap_ok", "src_pairwise_ok", "src_accumulate_ok", "src_islice_ok", "src_compress_ok"]),
          ("PylEquivZip", ["zip_sources_supported", "src_zip_inner_ok", "src_zip_inner_strict_ok", "src_zip_ok", "src_batched_ok"]),
-         ("PylCorollariesIter", ["filter_source_trace", "enumerate_source_trace", "map_source_trace", "zip_source_trace", "takewhile_source_trace", "dropwhile_source_trace", "filterfalse_source_trace", "starmap_source_trace", "pairwise_source_trace", "accumulate_source_trace_partial", "accumulate_source_empty_typeerror", "islice_source_trace", "compress_source_trace", "batched_source_trace_partial", "batched_source_trace_exact"]),
+         ("PylEquivChain", ["chain_sources_supported", "src_chain_iterator_ok", "src_cycle_ok", "a_cycle_wf_passes"]),
+         ("PylCorollariesIter", ["filter_source_trace", "enumerate_source_trace", "map_source_trace", "zip_source_trace", "takewhile_source_trace", "dropwhile_source_trace", "filterfalse_source_trace", "starmap_source_trace", "pairwise_source_trace", "accumulate_source_trace_partial", "accumulate_source_empty_typeerror", "islice_source_trace", "compress_source_trace", "batched_source_trace_partial", "batched_source_trace_exact", "chain_source_trace", "cycle_source_trace"]),
          ("PylCorollariesAgg", ["all_source_spec", "any_source_spec", "list_source_spec", "tuple_source_spec", "set_source_spec", "sum_source_spec", "reduce_source_spec", "min_max_source_spec", "min_max_wrappers_source_spec", "max_source_spec", "min_source_spec"])],
  "C16": [("GroupBy", ["groupby_refines", "stale_group_stops", "group_items_in_order", "group_items_no_duplicates", "group_numbers_sequential",
                      "groupby_close_releases", "closed_groupby_stops_partial", "closed_groupby_stops_refuted"])],
